@@ -5,6 +5,7 @@ import (
 	"encoding/json"
 	"fmt"
 	"math/bits"
+	"strings"
 
 	"verif/fitmodel"
 	"verif/vx"
@@ -87,6 +88,7 @@ func c10Expect(entry string, frame []byte) (int, int) {
 }
 
 func runC10(w *vx.W) {
+	c10MixChains(w)
 	thorough := !w.Quick()
 	singles := []namedStream{sMin12, sMin14, sMin14z, sAct3, sAct3BE, sSet, sMonState, sZero, sDev}
 	chains := []namedStream{sChain2, sChain2b, sChain3, sChainState, sChainState3, sChainZero, sChainDev}
@@ -297,6 +299,17 @@ func runC10(w *vx.W) {
 }
 
 func replayC10(raw json.RawMessage) (string, error) {
+	var mr c10MixReplay
+	if json.Unmarshal(raw, &mr) == nil && mr.MixChain {
+		var members [][]byte
+		for _, h := range mr.Members {
+			members = append(members, vx.UnHex(h))
+		}
+		if msg := c10MixChainCheck(members); msg != "" {
+			return "", fmt.Errorf("%s: %s", strings.Join(mr.Words, " + "), msg)
+		}
+		return "ok", nil
+	}
 	var r c10Replay
 	if err := json.Unmarshal(raw, &r); err != nil {
 		return "", err
@@ -327,4 +340,130 @@ func replayC10(raw json.RawMessage) (string, error) {
 		}
 	}
 	return out, nil
+}
+
+// ---- chains of mix words: every ordered pair (and, for single-op words, triple) of words of the mix family
+// concatenated and given to DecodeChained; each returned File must agree with the reference decoder's prediction
+// for that member alone (so nothing — slots, reference time, counters — crosses a file boundary), and Decode of
+// the concatenation must consume exactly the first member.
+
+type c10MixReplay struct {
+	MixChain bool     `json:"mix_chain"`
+	Words    []string `json:"words"`
+	Members  []string `json:"members_hex"`
+}
+
+func c10MixChainCheck(members [][]byte) string {
+	data := fitmodel.Concat(members...)
+	res := safeDecodeChained(bytes.NewReader(data))
+	if res.Panic != "" {
+		return "panic: " + res.Panic
+	}
+	refs := make([]*refFile, len(members))
+	for i, m := range members {
+		rf, err := refDecode(m)
+		if err != nil || rf.expectError || rf.mayReject {
+			return "" // outside the model
+		}
+		refs[i] = rf
+	}
+	if res.Err != nil {
+		return "DecodeChained rejects a chain of valid files: " + res.Err.Error()
+	}
+	if len(res.Files) != len(members) {
+		return fmt.Sprintf("DecodeChained returns %d files for %d members", len(res.Files), len(members))
+	}
+	for i := range members {
+		if d := refCompare(res.Files[i], refs[i]); d != "" {
+			return fmt.Sprintf("member %d: %s", i, d)
+		}
+	}
+	rd := &countingReader{b: data}
+	one := safeDecode(rd)
+	if one.Panic != "" || one.Err != nil {
+		return fmt.Sprintf("Decode of the chain: err=%v panic=%q", one.Err, one.Panic)
+	}
+	if rd.i != len(members[0]) {
+		return fmt.Sprintf("Decode of the chain consumed %d bytes, the first member has %d", rd.i, len(members[0]))
+	}
+	if d := refCompare(one.File, refs[0]); d != "" {
+		return "Decode of the chain: " + d
+	}
+	return ""
+}
+
+func c10MixChains(w *vx.W) {
+	alpha := mixAlphabet()
+	type word struct {
+		name string
+		b    []byte
+	}
+	var words []word
+	maxLen := 1
+	if !w.Quick() {
+		maxLen = 2
+	}
+	seqWords(len(alpha), maxLen, func(int64) bool { return true }, func(wd []int) bool {
+		var ops []mixOp
+		for _, a := range wd {
+			ops = append(ops, alpha[a])
+		}
+		if stream, full, ok := mixStream(ops, true); ok {
+			words = append(words, word{mixWordString(full), stream})
+		}
+		return true
+	})
+	// an empty word (file_id only)
+	if s, full, ok := mixStream(nil, true); ok {
+		words = append(words, word{mixWordString(full), s})
+	}
+	var idx int64
+	run := func(ws ...word) {
+		idx++
+		if !w.Mine(idx) {
+			return
+		}
+		var members [][]byte
+		var names []string
+		for _, x := range ws {
+			members = append(members, x.b)
+			names = append(names, "["+x.name+"]")
+		}
+		w.Eval(2)
+		w.Trace(2)
+		w.Fam(fmt.Sprintf("mix-chains-%d", len(ws)), 1)
+		w.Distinct(vx.HashB(fitmodel.Concat(members...)))
+		if msg := c10MixChainCheck(members); msg != "" {
+			var hx []string
+			for _, m := range members {
+				hx = append(hx, vx.Hex(m))
+			}
+			w.Violation("mix-chain", strings.Join(names, " + ")+": "+msg, c10MixReplay{MixChain: true, Words: names, Members: hx})
+		}
+	}
+	for _, a := range words {
+		for _, b := range words {
+			if w.Expired("mix-chain pairs") {
+				return
+			}
+			run(a, b)
+		}
+	}
+	// triples over the single-op words
+	var short []word
+	for _, x := range words {
+		if strings.Count(x.name, "def(") <= 1 && len(short) < 30 {
+			short = append(short, x)
+		}
+	}
+	for _, a := range short {
+		for _, b := range short {
+			for _, c := range short {
+				if w.Expired("mix-chain triples") {
+					return
+				}
+				run(a, b, c)
+			}
+		}
+	}
 }
